@@ -54,11 +54,13 @@ def maps_of(S):
 
 
 def run_case(spec):
-    idx, mode, timing, kind, pie, tc, tier = spec
+    idx, mode, timing, kind, pie, tc, tier = spec[:7]
+    libbase = spec[7] if len(spec) > 7 else 0      # link address of the library (0 = the default, position independent at zero)
     v = Verdict('C18', tier, '')
     seed = common.seed() * 100 + idx
     ls, lside = lib.gen_lib(seed)
-    lb = corpus.compile_rust('zqplug', ls, corpus.Config(tc=tc, crate_type='cdylib'), lside)
+    lextra = ('-C', f'link-arg=-Wl,-Ttext-segment={libbase:#x}') if libbase else ()
+    lb = corpus.compile_rust('zqplug', ls, corpus.Config(tc=tc, crate_type='cdylib', extra=lextra), lside)
     ldir = os.path.dirname(lb.path)
     hs, hside = lib.gen_host(seed, mode, lb.path)
     extra = ('-L', ldir, '-C', f'link-arg=-Wl,-rpath,{ldir}') if mode == 'startup' else ()
@@ -67,7 +69,11 @@ def run_case(spec):
     lsyms = nm_sized(lb.path)
     inner_sym = next((n for n in lsyms if re.search(r'\d+zq_inner17h', n)), None)
     k = lside['k']
-    ctx = {'host': hb.path, 'lib': lb.path, 'mode': mode, 'timing': timing, 'kind': kind, 'pie': pie}
+    # lowest PT_LOAD virtual address of the library: the load bias is the mapping start minus this link address
+    ph = subprocess.run(['readelf', '-lW', lb.path], stdout=subprocess.PIPE, text=True).stdout
+    loads = [int(l.split()[2], 16) for l in ph.splitlines() if l.strip().startswith('LOAD')]
+    link_base = (min(loads) & ~0xfff) if loads else 0
+    ctx = {'host': hb.path, 'lib': lb.path, 'mode': mode, 'timing': timing, 'kind': kind, 'pie': pie, 'lib_link_base': hex(link_base)}
     # values passed to the library, in call order
     xs = []
     acc = 7
@@ -152,7 +158,7 @@ def run_case(spec):
             if in_lib:
                 lib_stops += 1
                 v.count('stops_in_library_code')
-                base = objs[lb.path]['base']
+                base = objs[lb.path]['base'] - link_base      # load bias
                 sym = inner_sym if kind != 'fn-export' else 'zq_plug_calc'
                 lo, size = lsyms[sym]
                 if not (base + lo <= pc < base + lo + size):
@@ -237,7 +243,7 @@ def run_case(spec):
             code = (r.get('ok') or {}).get('code')
             if out != native[0] or code != native[2]:
                 v.violation('c18:output-differs-from-native', 'program output or exit status differs from the native run', dict(ctx, got=out[-100:].decode('latin1'), code=code))
-        v.case(signature=('c18', mode, timing, kind, pie), sample=dict(ctx, lib_stops=lib_stops, rounds=hside['rounds'], request=how))
+        v.case(signature=('c18', mode, timing, kind, pie, libbase), sample=dict(ctx, lib_stops=lib_stops, rounds=hside['rounds'], request=how))
     except Crash as c:
         loc = (c.info or {}).get('panic', {}).get('loc') if c.kind == 'panic' else (c.info or {}).get('cmd')
         if c.kind == 'hang':
@@ -271,14 +277,18 @@ def main(tier):
                         i += 1
                         continue
                     for pie in ((True, False) if kind == 'fn-inner' else (True,)):
-                        specs.append((rep * 10 + (i % 3), mode, timing, kind, pie, '1.89' if i % 2 == 0 else '1.95', tier))
+                        specs.append((rep * 10 + (i % 3), mode, timing, kind, pie, '1.89' if i % 2 == 0 else '1.95', tier, 0))
+                    if kind == 'fn-inner' and timing in ('before-start', 'after-load'):
+                        # the same with a library that is position independent but linked at a non-zero address
+                        specs.append((rep * 10 + (i % 3), mode, timing, kind, True, '1.89' if i % 2 == 0 else '1.95', tier, 0x4000000))
                     i += 1
     # compile serially first (library and hosts share build directories)
     for s in specs:
         try:
             seed = common.seed() * 100 + s[0]
             ls, lside = lib.gen_lib(seed)
-            lb = corpus.compile_rust('zqplug', ls, corpus.Config(tc=s[5], crate_type='cdylib'), lside)
+            lextra = ('-C', f'link-arg=-Wl,-Ttext-segment={s[7]:#x}') if s[7] else ()
+            lb = corpus.compile_rust('zqplug', ls, corpus.Config(tc=s[5], crate_type='cdylib', extra=lextra), lside)
             ldir = os.path.dirname(lb.path)
             hs, hside = lib.gen_host(seed, s[1], lb.path)
             extra = ('-L', ldir, '-C', f'link-arg=-Wl,-rpath,{ldir}') if s[1] == 'startup' else ()
